@@ -60,6 +60,9 @@ def grid(tier, rng):
             PI, PI.pow(2), PI.pow(-1), PI.root(2), PI / m(180), m(2) * PI, PI * m(10).pow(38), m(2 ** 31 - 1) * m(2 ** 31 - 1),
             m(2 ** 61 - 1) * m(8), m(2 ** 61 - 1) * m(4), m(2 ** 64 - 59).pow(2), m(2 ** 64 - 59).pow(-1), m(3).pow(40), m(3).pow(41),
             m(7).pow(22), m(7).pow(23)]
+    # composites that fool weak primality tests, divided by one of their factors / under a root: classification must see the true factorisation
+    out += [m(1373653) / m(829), m(829) / m(1373653), m(2047) / m(23), m(25326001) / m(2251), m(3215031751) / m(151),
+            (m(1373653) * m(829) * m(1657)).root(2), (m(2047) * m(23)).root(2), m(1373653) * m(2) / m(1657)]
     if tier == "thorough":
         for _ in range(60):
             a = rng.getrandbits(rng.randrange(1, 64)) | 1
